@@ -30,6 +30,9 @@ Names == <<"OnePartPerImage", "DistinctNames", "ExtAndTypeOfActualFormat", "Stor
 Holds(n, s, a, t) ==
   LET adds == a.op \in {"addPicture", "insertPicture", "addMovie", "addOle"} /\ a.img > 0
       last == t.pics[Len(t.pics)]
+      \* (total: a call that stored no picture - it raised on bytes the library mangled itself - leaves the size clauses false, not
+      \* unevaluable)
+      added == Len(t.pics) = Len(s.pics) + 1
   IN
   CASE n = "OnePartPerImage"   -> NoDup(Imgs(t)) /\ 0 \notin SeqSet(Imgs(t))
     [] n = "DistinctNames"     -> NoDup([i \in DOMAIN t.media |-> t.media[i].name])
@@ -46,9 +49,9 @@ Holds(n, s, a, t) ==
     \* every picture added so far still shows the bytes it was added with (in memory, and again after a re-open)
     [] n = "PicturesShowTheirImage" -> \A p \in SeqSet(t.pics) : p.now = p.img
     [] n = "NativeSize"        -> (a.op = "addPicture" /\ a.args = "none") =>
-                                     (last.img = a.img /\ Abs(last.cx * U[a.img].dx - EMU * U[a.img].pw) <= U[a.img].dx
+                                     (added /\ last.img = a.img /\ Abs(last.cx * U[a.img].dx - EMU * U[a.img].pw) <= U[a.img].dx
                                                        /\ Abs(last.cy * U[a.img].dy - EMU * U[a.img].ph) <= U[a.img].dy)
-    [] n = "AspectKept"        -> (a.op = "addPicture" /\ a.args \in {"w", "h"}) => last.aspectOk
-    [] n = "RequestedSize"     -> (a.op = "addPicture" /\ a.args = "both") => (last.cx = a.cx /\ last.cy = a.cy)
+    [] n = "AspectKept"        -> (a.op = "addPicture" /\ a.args \in {"w", "h"}) => (added /\ last.aspectOk)
+    [] n = "RequestedSize"     -> (a.op = "addPicture" /\ a.args = "both") => (added /\ last.cx = a.cx /\ last.cy = a.cy)
 Failing(s, a, t) == {Names[i] : i \in {j \in DOMAIN Names : ~Holds(Names[j], s, a, t)}}
 =============================================================================
